@@ -32,6 +32,10 @@ GenGetN ==
 
 GenActs ==
        [op : {"set", "unset"}, h : Hs, i : Idx]
+  \cup {[op |-> o, h |-> h,
+          lo |-> RandomElement(IF univ = WBits THEN {0, 3, 60} ELSE {0, -5, 60, 900, 1000}),
+          cnt |-> RandomElement(IF univ = WBits THEN {0, 1, 63, 64, 65} ELSE {0, 1, 64, 65, 255, 256, 257, 1030}),
+          step |-> RandomElement({1, 2, 3})] : o \in {"setrun", "unsetrun"}, h \in Hs}
   \cup {[op |-> "fill", h |-> h, ms |-> Asc(S)] : h \in Hs, S \in FillSets}
   \cup [op : {"len", "nlen"}, h : Hs]
   \cup [op : {"rev"}, h : Hs, d : Hs]
